@@ -200,8 +200,8 @@ m("inherit-setdefault", "labrea/runtime.py",
   "        _RUNTIMES[threading.current_thread()] = _RUNTIMES.get(parent, Runtime())",
   "        _RUNTIMES.setdefault(threading.current_thread(), _RUNTIMES.get(parent, Runtime()))", ["C15"])
 m("template-params-shared", "labrea/template.py",
-  "        params = {\n            f\":{key}:\": _literal(val.evaluate(options))\n            for key, val in self.params.items()\n        }",
-  "        params = self.__dict__.setdefault('_p', {})\n        for key, val in self.params.items():\n            params[f\":{key}:\"] = _literal(val.evaluate(options))", ["C09"])
+  "        values = [str(val.evaluate(options)) for val in self.params.values()]",
+  "        values = self.__dict__.setdefault('_v', [None] * len(self.params))\n        for _i, _val in enumerate(self.params.values()):\n            values[_i] = str(_val.evaluate(options))", ["C09"])
 m("auto-build-memoised", "labrea/option.py",
   "        option: Evaluatable = self.option(key)\n\n        for tform in self.transformations:\n            option = option >> tform\n\n        option.__doc__ = self.doc or option.__doc__\n\n        return option",
   "        if hasattr(self, '_b'):\n            return self._b\n        option: Evaluatable = self.option(key)\n\n        for tform in self.transformations:\n            option = option >> tform\n\n        option.__doc__ = self.doc or option.__doc__\n        self._b = option\n        return option", ["C04"])
